@@ -150,15 +150,19 @@ pub fn gen(r: &mut Rng, _tier: &str, _i: usize, stats: &mut BTreeMap<String, u64
         let j = r.below(16);
         let after_p = steps.last().map(|l: &String| l.starts_with("p:")).unwrap_or(false);
         // after a derivative: substitute into it, or differentiate it once more in a separate call
-        let (i, kind) = if after_p && r.chance(1, 2) { (99, "s") } else if after_p && r.chance(1, 2) { (99, "p99") } else { (i, "") };
+        // (once per history, directly after a first- or zeroth-order derivative, one more order at most:
+        // chains of higher derivatives explode - a thorough-tier candidate once was killed for memory)
+        let p99_ok = steps.len() == steps.iter().filter(|l: &&String| !l.starts_with("p:99:")).count()
+            && steps.last().map(|l: &String| l.split(':').nth(2).map(|x| !x.contains(',')).unwrap_or(false)).unwrap_or(false);
+        let (i, kind) = if after_p && r.chance(1, 2) { (99, "s") } else if after_p && p99_ok && r.chance(1, 2) { (99, "p99") } else { (i, "") };
         if kind == "p99" {
             // (piecewise expressions over the value type grow fast under differentiation: one more order at most)
-            let n = if profile == "val" { r.below(2) } else { r.below(3) };
+            let n = r.below(2);
             let idxs: Vec<String> = (0..n).map(|_| r.below(3).to_string()).collect();
             let step = format!("p:99:{}", if idxs.is_empty() { "-".to_string() } else { idxs.join(",") });
             let last = *est.last().unwrap();
             est.push(last * (if profile == "val" { 40f64 } else { 6f64 }).powi(n as i32));
-            if *est.last().unwrap() <= 40000.0 {
+            if *est.last().unwrap() <= 6000.0 {
                 *stats.entry("step_p_again".to_string()).or_insert(0) += 1;
                 steps.push(step);
                 continue;
